@@ -106,6 +106,8 @@ def build(layout: dict, evs: list[type]) -> tuple[list[type], list[Any]]:
                 def __init__(self: Any, val: int = 0) -> None:
                     self.val = val
                 ns["__init__"] = __init__
+                if c.get("owner") == "falsy":
+                    ns["__len__"] = lambda self: 0
             cls = type(f"Owner{ci}", bases, ns)
         classes.append(cls)
     # instances declared as copies of another one are created later (copy.copy, after the
@@ -146,8 +148,10 @@ def _layout(d: D, prop: str) -> dict:
                 attrs.append(a)
         sigs = {a: d.int(0, 2) for a in attrs}
         owner = "plain"
-        if base is None and prop == "C11" and d.pct(15):
-            owner = "frozen"
+        if base is None and d.pct(15 if prop == "C11" else 10):
+            owner = "frozen"  # instances with equal fields compare (and hash) equal
+        elif base is None and d.pct(10):
+            owner = "falsy"  # instances whose truth value is False (an empty collection-like event source)
         elif base is not None:
             owner = classes[base]["owner"]
         classes.append({"base": base, "sigs": sigs, "owner": owner})
@@ -782,6 +786,8 @@ class SeqInterp:
             labs.add("inheritance")
         if any(c.get("owner") == "frozen" for c in lay["classes"]):
             labs.add("frozen-dataclass-owner")
+        if any(c.get("owner") == "falsy" for c in lay["classes"]):
+            labs.add("falsy-owner")
         if self.n_overflow:
             labs.add("overflow")
         if self.left_while_dispatching:
